@@ -200,6 +200,9 @@ def case_strategy(draw):
     loads = draw(st.lists(anytext, max_size=4))
     valid = draw(st.integers(0, 4)) < 3
     final = draw(good) if valid else draw(st.one_of(st.sampled_from(EMPTY), st.sampled_from(broken)))
+    if draw(st.integers(0, 3)) == 0:
+        # the very same text is loaded again later: P ... (failing / other loads) ... P
+        loads = [final] + draw(st.lists(st.one_of(st.sampled_from(broken), st.sampled_from(broken), st.sampled_from(EMPTY), good), min_size=1, max_size=3))
     return {"sim": cfg, "loads": loads, "probe": draw(st.lists(st.booleans(), min_size=1, max_size=4)), "final": final, "final_valid": valid, "bound": draw(st.sampled_from([60, 300])),
             "after": draw(st.lists(st.sampled_from(after_calls), min_size=1, max_size=5))}
 
